@@ -31,10 +31,13 @@ TRUSTED_BASE = [
     "`gf2Inv`, is since /repo 70adac4 literally the code's `_gf2_inverse` — no float step is left in state_to_graph); stabilizer_to_graph on every generating "
     "set of |G>; gauge independence; single-qubit gates; state round trip; Hilbert-space form U rho U^dagger = |G><G|)",
     "correspondence of Model/StateToGraph.lean with state_rep_conversion.py: exact comparison (graph, gate list, error class) on every generated input — testing, not proof",
-    "density -> graph: proved at the level of stabilizer groups (the pair group of |G> at (i, j) is the two-vertex graph state with an edge iff A[i,j]: "
-    "density_to_graph_pair_state_partial) and on exact 4x4 rational matrices (negativity 0 resp. 1/2: density_to_graph_pair_negativity); cited, not proved: "
-    "<0_M| rho_S |0_M> = 2^-n * sum of the restrictions of the X/Y-free elements, uniqueness of the Jordan decomposition; the floating-point parts "
-    "(dense matrices, eigenvalues, purity test) are compared numerically per input: project_and_remove and negativity of every pair against the two proved states",
+    "density -> graph: proved for every n — group level (density_to_graph_pair_state_partial) and Hilbert space (density_to_graph_project_and_remove: "
+    "project_and_remove, modelled as projector / trace normalisation / partial trace on 2^n x 2^n complex matrices, maps |G><G| to the graph state of the induced "
+    "pair; the trace of the projected matrix is 4/2^n, never 0) — and on exact 4x4 rational matrices (the two possible states entry by entry, negativity 0 resp. 1/2: "
+    "density_to_graph_pair_spectrum — eigenvalues as roots of the characteristic polynomial —, density_to_graph_edge_rule_partial); NOT proved: that the numpy "
+    "code of project_and_remove / partial_trace / bipartite_partial_transpose computes the modelled maps (compared: partial transpose exhaustively on the 16 matrix "
+    "units, project_and_remove on random density matrices n <= 4 against the modelled formula), float eigenvalues (eigh), purity test, closing np.allclose — "
+    "compared numerically per input: project_and_remove and negativity of every pair of every graph on <= 5 vertices against the two proved states",
     "harness dense reference (n <= 5) and independent signed-group canonicaliser",
 ]
 ASSUMPTIONS = [
@@ -120,6 +123,46 @@ def check_pair_states(res, adj, rho, inp):
                                 model="graph state of the induced pair: " + ("CZ|++>, negativity 1/2" if adj[i, j] else "|++>, negativity 0"))
             else:
                 res.traces_validated += 1
+
+
+def check_density_maps(ctx, res):
+    """the two numpy maps that the Hilbert-space density theorems model, against the modelled formulas on GENERIC inputs (not only graph states):
+    * `bipartite_partial_transpose(M, 2, 2, 0)` = `Neg.ptA`: result[r, c] = M[2*(c//2) + r%2, 2*(r//2) + c%2] — exhaustive on the 16 matrix units
+      (the map is linear);
+    * `project_and_remove(rho, mask_ij)` = `projectAndRemove` (C08.density_to_graph_project_and_remove): entries rho[emb a, emb b] / (their trace),
+      emb = the two bits at positions i, j (qubit 0 most significant) and 0 elsewhere — on random density matrices, n <= 4, every pair."""
+    from graphiq.backends.density_matrix import functions as dmf
+
+    for p in range(4):
+        for q in range(4):
+            e = np.zeros((4, 4))
+            e[p, q] = 1.0
+            got = np.asarray(dmf.bipartite_partial_transpose(e, 2, 2, 0))
+            want = np.array([[e[2 * (c // 2) + r % 2, 2 * (r // 2) + c % 2] for c in range(4)] for r in range(4)])
+            res.evaluations += 1
+            if np.array_equal(got, want):
+                res.traces_validated += 1
+            else:
+                res.exact_break("bipartite_partial_transpose:formula", input={"unit": [p, q]}, impl=got.tolist(), model=want.tolist())
+    for n in (2, 3, 4):
+        for _ in range(2 if ctx.quick else 10):
+            d = 2 ** n
+            a = np.array([[complex(ctx.rng.gauss(0, 1), ctx.rng.gauss(0, 1)) for _ in range(d)] for _ in range(d)])
+            rho = a @ a.conj().T
+            rho = rho / np.trace(rho)
+            for i in range(n):
+                for j in range(i + 1, n):
+                    mask = [0 if k in (i, j) else 1 for k in range(n)]
+                    got = np.asarray(dmf.project_and_remove(rho.copy(), mask))
+                    emb = [(a0 << (n - 1 - i)) | (a1 << (n - 1 - j)) for a0 in (0, 1) for a1 in (0, 1)]
+                    comp = rho[np.ix_(emb, emb)]
+                    want = comp / np.trace(comp)
+                    res.evaluations += 1
+                    if np.allclose(got, want, atol=1e-9):
+                        res.traces_validated += 1
+                    else:
+                        res.exact_break("project_and_remove:formula", input={"n": n, "pair": [i, j]}, impl=np.round(got, 6).tolist(),
+                                        model=np.round(want, 6).tolist())
 
 
 def check_graph(ctx, res, drv, adj, pending):
@@ -405,6 +448,7 @@ def run(ctx, budget=1.0):
     drv = Driver()
     rng = ctx.rng
     pending = []
+    check_density_maps(ctx, res)
     for w in FORMER_D40:
         check_state_to_graph(ctx, res, drv, stab_of_args(w), pending, "corpus:former-D40")
     check_state_to_graph(ctx, res, drv, stab_of_args(D49_WITNESS), pending, "corpus:D49")
@@ -435,6 +479,28 @@ def run(ctx, budget=1.0):
         n = rng.randrange(3, 9)
         tab = su.random_state(rng, n)
         check_state_to_graph(ctx, res, drv, tab if rng.random() < 0.5 else tab.to_stabilizer(), pending, "random")
+    # gauge independence (theorem C08.state_to_graph_depends_only_on_state): another generating set of the same state gets the same graph and gates
+    for _ in range(int((40 if ctx.quick else 400) * budget)):
+        n = rng.randrange(1, 8)
+        st = su.random_state(rng, n).to_stabilizer()
+        st2 = su.regauge_stab(st, rng)
+        res.evaluations += 1
+        o1, o2 = impl_state_to_graph(st), impl_state_to_graph(st2)
+        if o1[0] == "ok" and o2[0] == "ok" and o1 != o2:
+            res.exact_break("state_to_graph:gauge-independence", input={"stab": su.stab_args(st), "regauged": su.stab_args(st2)}, impl=[list(o1), list(o2)],
+                            model="same graph and gate list for both generating sets (C08.state_to_graph_depends_only_on_state)")
+        else:
+            res.traces_validated += 1
+        check_state_to_graph(ctx, res, drv, st2, pending, "random-regauged")
+    # scale: the completeness theorem holds for every n; D51 lived beyond the sizes that used to be generated (>= 42 qubits).  Random states,
+    # dense generating sets of |0..0> (all the weight on the inverted block) and re-gauged graph states at 16..64 qubits.
+    for n in ((32,) if ctx.quick else (16, 24, 32, 40, 48, 56, 64)):
+        for _ in range(1 if ctx.quick else 3):
+            check_state_to_graph(ctx, res, drv, su.random_state(rng, n).to_stabilizer(), pending, "scale:random")
+            check_state_to_graph(ctx, res, drv, dense_zero_state(rng, n), pending, "scale:dense-zero")
+            adj = nx.to_numpy_array(nx.gnp_random_graph(n, rng.uniform(0.1, 0.6), seed=rng.getrandbits(30))).astype(int)
+            check_state_to_graph(ctx, res, drv, su.regauge_stab(graph_stab(adj), rng), pending, "scale:graph-state-regauged")
+        flush(res, drv, pending)
     # graph states in other gauges always convert (they are the states the solvers feed in)
     for _ in range(int((40 if ctx.quick else 400) * budget)):
         n = rng.randrange(2, 9)
